@@ -9,6 +9,7 @@ pub mod common;
 pub mod declcommon;
 pub mod c01;
 pub mod c02;
+pub mod c03;
 pub mod c04;
 pub mod c05;
 pub mod c06;
@@ -21,6 +22,7 @@ pub mod c12;
 pub mod c13;
 pub mod c14;
 pub mod c15;
+pub mod c16;
 pub mod c17;
 pub mod lockstep;
 
@@ -65,7 +67,7 @@ pub const DEFAULT: Check = Check {
 };
 
 pub fn all() -> Vec<Check> {
-    vec![c01::check(), c02::check(), c05::check(), c06::check(), c13::check(), c14::check(), c15::check(), c04::check(), c07::check(), c08::check(), c09::check(), c10::check(), c11::check(), c12::check(), c17::check()]
+    vec![c01::check(), c02::check(), c03::check(), c05::check(), c06::check(), c13::check(), c14::check(), c15::check(), c16::check(), c04::check(), c07::check(), c08::check(), c09::check(), c10::check(), c11::check(), c12::check(), c17::check()]
 }
 
 pub fn find(id: &str) -> Option<Check> {
